@@ -6,6 +6,7 @@
 package zzrt
 
 import (
+	"runtime"
 	"encoding/json"
 	"fmt"
 	"os"
@@ -219,6 +220,8 @@ type gthread struct {
 	inQuiesce bool
 }
 
+var schedTrace = os.Getenv("ZZSCHEDTRACE") != ""
+
 var (
 	threads     []*gthread
 	cur         *gthread
@@ -305,6 +308,19 @@ func reschedule(me *gthread, canContinue bool) {
 			}
 		}
 		k := nextSched(len(ord))
+		if schedTrace {
+			ids := []int{}
+			for _, t := range ord {
+				ids = append(ids, t.id)
+			}
+			where := ""
+			for d := 2; d < 6; d++ {
+				if pc, _, line, ok := runtime.Caller(d); ok {
+					where += fmt.Sprintf(" %s:%d", runtime.FuncForPC(pc).Name(), line)
+				}
+			}
+			fmt.Fprintln(os.Stderr, "ZZSCHED preempt-point me", me.id, "cands", ids, "pick", k, where)
+		}
 		if k == 0 {
 			return
 		}
@@ -316,6 +332,13 @@ func reschedule(me *gthread, canContinue bool) {
 	if len(cands) > 1 && tape.Params["ZZDETSCHED"] != 1 {
 		// ZZDETSCHED: the first enabled goroutine (creation order) runs, as in the executor - no decision recorded
 		k = nextSched(len(cands))
+	}
+	if schedTrace {
+		ids := []int{}
+		for _, t := range cands {
+			ids = append(ids, t.id)
+		}
+		fmt.Fprintln(os.Stderr, "ZZSCHED blocking-point me", me.id, "cands", ids, "pick", k)
 	}
 	if cands[k] == me {
 		return
@@ -413,6 +436,10 @@ func MarkClosed(ch any) { closedChans[chanKey(ch)] = true }
 
 func chanKey(ch any) any { return reflect.ValueOf(ch).Pointer() }
 
+// ClosePoint: model code calls it right before a raw close(ch); the executor treats close itself as a
+// scheduling point (ClosePoint is a no-op there), natively this is that point.
+func ClosePoint() { Point() }
+
 func Close[T any](ch chan T) {
 	Point()
 	MarkClosed(ch)
@@ -446,8 +473,20 @@ func afterRecv(ch any) {
 	}
 }
 
-func Recv[T any](ch <-chan T) T {
+// afterSelect: the receive that follows SelectRecv on the chosen channel belongs to the select itself - one
+// scheduling point for the whole statement, as in the executor.
+var afterSelect bool
+
+func recvPoint() {
+	if afterSelect {
+		afterSelect = false
+		return
+	}
 	Point()
+}
+
+func Recv[T any](ch <-chan T) T {
+	recvPoint()
 	Await(func() bool { return readyRecv(ch) })
 	v, ok := <-ch
 	if ok && cap(ch) == 0 {
@@ -457,7 +496,7 @@ func Recv[T any](ch <-chan T) T {
 }
 
 func Recv2[T any](ch <-chan T) (T, bool) {
-	Point()
+	recvPoint()
 	Await(func() bool { return readyRecv(ch) })
 	v, ok := <-ch
 	if ok && cap(ch) == 0 {
@@ -498,6 +537,7 @@ func SelectRecv(chans ...any) int {
 	}
 	Await(func() bool { return len(ready()) > 0 })
 	rd := ready()
+	afterSelect = true
 	if len(rd) == 1 {
 		return rd[0]
 	}
@@ -517,8 +557,10 @@ func SelectRecvDefault(chans ...any) int {
 	case 0:
 		return -1
 	case 1:
+		afterSelect = true
 		return rd[0]
 	}
+	afterSelect = true
 	return rd[nextChoice(len(rd))]
 }
 
